@@ -209,7 +209,7 @@ fn enumerate6(seed: u64, run: u64, tier: Tier, slices: u64) -> Plan {
     };
     let params = if f == 1 || f == 3 { PwParams::Iter(2) } else { PwParams::Argon(8192, 1, 1) };
     let rng = b.healthy_rng();
-    b.push(Step::Wrap { blob, node: 0, wk, key, with: with_w, params, rng });
+    b.push(Step::Wrap { blob, node: 0, wk, key, with: with_w, params: params.clone(), rng });
     let readers: Vec<usize> = if bk.sibling().is_some() { vec![0, 1] } else { vec![0] };
     let total = blob_len(f, wk, key_len(f, kk));
     let mut read = |b: &mut Builder, faults: Vec<BlobFault>, with: &SecretRef| {
@@ -262,6 +262,39 @@ fn enumerate6(seed: u64, run: u64, tier: Tier, slices: u64) -> Plan {
                 WrapKind::Pke => SecretRef::Key { slot: nfk.pke_secret },
             };
             b.push(Step::Unwrap { blob, node, with, faults: vec![BlobFault::Relabel { header: header_of(nf, nwk, nkk) }], as_kind: Some((nwk, nkk)) });
+        }
+    }
+    // long passwords and passwords with embedded NUL: a second blob in the same run
+    if wk == WrapKind::Pw {
+        let long: Vec<u8> = crate::prng::Rng::new(b.ev_seed()).bytes(300).into_iter().map(|x| x | 1).collect();
+        let mut with_nul = b"abc".to_vec();
+        with_nul.push(0);
+        with_nul.extend_from_slice(b"def");
+        for pwx in [long, with_nul] {
+            let blob2 = b.blob_slot();
+            let rng = b.healthy_rng();
+            b.push(Step::Wrap { blob: blob2, node: 0, wk, key, with: SecretRef::Password { bytes: Bytes::hex(&pwx) }, params: params.clone(), rng });
+            let mut variants: Vec<Vec<u8>> = vec![pwx.clone()];
+            for cut in [1usize, 3, 4, 56, 64, 72, 127, 128, 129, 255, 256, 299] {
+                if cut < pwx.len() {
+                    variants.push(pwx[..cut].to_vec());
+                }
+            }
+            let mut last = pwx.clone();
+            *last.last_mut().unwrap() ^= 0x10;
+            variants.push(last);
+            for at in [63usize, 64, 71, 72, 127, 128, 200] {
+                if at < pwx.len() {
+                    let mut v = pwx.clone();
+                    v[at] ^= 1;
+                    variants.push(v);
+                }
+            }
+            for v in variants {
+                for &r in &readers {
+                    b.push(Step::Unwrap { blob: blob2, node: r, with: SecretRef::Password { bytes: Bytes::hex(&v) }, faults: vec![], as_kind: None });
+                }
+            }
         }
     }
     // wrong secrets
